@@ -30,7 +30,7 @@ ASSUMPTIONS = [
     "liveness ('never hangs') is not a contract clause and is not decided; termination is not verified",
     "json: float -> repr -> float is the identity on finite doubles (library contract; bounded native check)",
     "trace equality external vs in-process additionally rests on C18 (re-validation of the dumped configuration) and the determinism of SciPy: bounded native evidence only",
-    "environment bounded: <= 2 evaluations, one fault per run",
+    "environment bounded: <= 2 (thorough: 4) evaluations, one fault per run",
 ]
 
 
